@@ -35,6 +35,10 @@ CLAIMED = {
          "Generated-input search: for each surveyed object of corpus and generated files, orderings of up to 5 distinct call kinds (right and wrong typed loads, resolve, Stream::data, raw_image_data, image_data) and random sequences of up to 12 calls across objects and pages are executed on documents opened with both / object-only / stream-only / no caches; every call must give the same digest or root-cause error kind in all four and when issued alone.",
          "digests are hashes of canonical values; error kinds compared with wrappers peeled; SyncCache is the library's own cache type",
          "DESIGN.md §4 C12"),
+ "C18": ("fault injection by construction with a metamorphic oracle (dangling reference == literal null == absent entry): exhaustive over every position of every model instance x 6 kinds of missing object x strict/tolerant, plus proptest-generated edited instances and whole documents",
+         "Bounded-exhaustive enumeration plus generated-input search: every entry, array element and nested entry of ~80 model instances is pointed at object 0, a freed number, a gap in the table, /Size, /Size+5 and 999999, in strict and tolerant mode (about 6 900 cases, all run in quick), then 20k (quick) / 1.5M (thorough) randomly edited instances; catalog, page-tree and page entries of a whole document are attacked the same way and loaded in four configurations. Each case is compared with the same instance holding a literal null (and with the entry removed); required entries must fail with an error naming the field.",
+         "positions whose reader accepts no reference at all (name enums, /Type tags) are detected with a valid-reference control and not asserted; references merely carried (Ref<T>, Lazy, Primitive) are accepted as is",
+         "DESIGN.md §4 C18"),
  "C19": ("proptest-generated W arrays / simple-font tables / code-to-text maps / conformant CMap texts; reference model (map of assigned widths, map of entries) as oracle, write_cmap round-trip",
          "Generated-input search: composite-font width arrays with groups in any order and both forms (the evidence counts the five growth cases empty/append/prepend/gap/inside), simple fonts, maps with BMP, supplementary and multi-character texts, and independently generated CMap texts using bfchar and both bfrange forms with 1- and 2-byte codes; every probed code's width and the exact set of map entries are compared with the model.",
          "fonts are read through the public API from files written by the harness; simple fonts carry no /MissingWidth",
